@@ -246,6 +246,12 @@ def run(case, ctx):
                     ctx.violation('route-object-order', f'{tag}: {seq}')
             # ---- metrics of THIS request's own forward / reverse propagation
             exp = expected_metrics(pth[-1], q)
+            import numpy as _np
+            if _np.isnan(_np.asarray(pth[-1].snr_01nm, dtype=float)).any():
+                # a NaN GSNR arises when the first-order NLI estimate exceeds the channel power (a design launching far more
+                # than +10 dBm per channel, outside the domain the properties are stated for): nothing to report faithfully
+                ctx.label('not-judged:receiver-gsnr-undefined')
+                continue
             for name, val in exp.items():
                 if isinstance(val, tuple) and (math.isnan(val[1]) or math.isinf(val[1])):
                     ctx.label(f'receiver-figure-undefined:{name}')
